@@ -147,6 +147,11 @@ FAKE_GO = r"""#!/bin/sh
 # fake `go` for the profiler: `go tool objdump <binary>` serves the canned listing in chunks.
 d="$FAKEGO_DIR"
 mode=$(cat "$d/mode")
+# a run of its own can be given its mode through the environment (overlapping runs):
+#   gate_after_<i>:<file>      after chunk i wait until <file> exists, then go on to the end
+#   gatefail_after_<i>:<file>  after chunk i wait until <file> exists, then exit 3
+if [ -n "$FAKEGO_MODE" ]; then mode="${FAKEGO_MODE%%:*}"; gate="${FAKEGO_MODE#*:}"; fi
+waitgate() { n=0; while [ ! -e "$gate" ] && [ $n -lt 1000 ]; do sleep 0.02; n=$((n+1)); done; }
 case "$mode" in fail_after_0) exit 3;; kill_after_0) kill -9 $PPID; exit 3;; esac
 i=0
 for c in "$d"/chunk_*; do
@@ -155,6 +160,8 @@ for c in "$d"/chunk_*; do
   case "$mode" in
     fail_after_$i) exit 3;;
     kill_after_$i) sleep 0.15; kill -9 $PPID; exit 3;;
+    gate_after_$i) waitgate;;
+    gatefail_after_$i) waitgate; exit 3;;
   esac
 done
 exit 0
